@@ -605,6 +605,13 @@ class Executor:
       return v.items
     if isinstance(v, VRecord) and getattr(v.kind, 'tuple_order', None):
       return [v.fields[f] for f in v.kind.tuple_order]
+    if isinstance(v, VObj) and isinstance(node, (ast.Tuple, ast.List)):
+      n = len(node.elts)
+      vlen = sym.ufun('val_len', sym.Val, sym.IntS)(v.e)
+      if not self.path.decide(vlen == n):
+        self.py_raise('ValueError', node, note='wrong number of values to unpack')
+      item = sym.ufun('val_item', sym.Val, sym.IntS, sym.Val)
+      return [VObj(item(v.e, z3.IntVal(i))) for i in range(n)]
     self.oos(f'unpacking of {v!r}', node)
 
   def st_Return(self, s):
@@ -1213,6 +1220,8 @@ class Executor:
       if r is not None:
         return r
     if isinstance(obj, VObj):
+      if attr in self.world.VAL_METHOD_CONTRACTS:
+        return VPy('valmethod', (obj, self.world.VAL_METHOD_CONTRACTS[attr]))
       if attr in self.world.STR_METHODS:
         sym.val_axioms()
         self.path.oblige(
@@ -1447,6 +1456,9 @@ class Executor:
         return self.opaque_call(fn, args, kwargs, node)
       if fn.what == 'external':
         return self.call_contract(C.REGISTRY[fn.payload], args, kwargs, node, None)
+      if fn.what == 'valmethod':
+        obj, qual = fn.payload
+        return self.call_contract(C.REGISTRY[qual], [obj] + list(args), kwargs, node, None)
       if fn.what == 'regex_match':
         a0 = args[0]
         if isinstance(a0, VObj):
